@@ -5,7 +5,7 @@ from .util import call
 
 ID = 'C01'
 LEAN_MODULE = 'KernProofs.C01'
-THEOREMS = []
+THEOREMS = ['KM.C01.C01_canon', 'KM.C01.C01_canon_export', 'KM.C01.canon_sameContent', 'KM.C01.C01_export_is_render_canon', 'KM.C01.C01_cell_fixed_point', 'KM.C01.canon_idem', 'KM.Spec.sortedSet_congr', 'KM.Spec.sortedSet_idem', 'KM.C03.C03_single']
 FINGERPRINTS = ['tokens.NoteRestToken.export', 'tokens.ChordToken.export', 'tokenizers.KernTokenizer.tokenize', 'tokenizers.EkernTokenizer.tokenize',
                 'base_antlr_spine_parser_listener', 'exporter.Exporter.export_string', 'exporter.get_kern_from_ekern', 'importer.Importer',
                 'kern_spine_importer.KernSpineImporter.import_token']
